@@ -12,19 +12,23 @@ open EinoV.Gen
 
 theorem facts_match :
     FactsC19.closesSurplus = Expected.C19.closesSurplus ∧
+    FactsC19.closesReplaced = Expected.C19.closesReplaced ∧
+    FactsC19.skippedChannelClosesValues = Expected.C19.skippedChannelClosesValues ∧
     FactsC19.closesNonDataValues = Expected.C19.closesNonDataValues ∧
     FactsC19.firstCopyExpr = Expected.C19.firstCopyExpr ∧
     FactsC19.recopyExpr = "toCopyNum+1" ∧
     FactsC19.toCopyNumExpr = "len(nextNodeKeys)-len(t.call.writeTo)-len(t.call.writeToBranches)" := by decide
 
-/-- **ledger_balanced.** For every task — any number of data successors `W`, branches `B`
-    and selected targets `sel` (a multi-branch may select none, or several) — every reader
-    derived from the task's output stream is consumed by a branch condition, handed to exactly
-    one successor channel, or closed: none is left over. -/
-theorem ledger_balanced (W B sel : Nat) :
-    (distribute FactsC19.closesSurplus W B sel).leaked = 0 := by
+/-- **ledger_balanced.** For every task — any number of data successors `W`, branches `B`,
+    selected targets `sel` (a multi-branch may select none, or several) and repeated targets
+    `dups` (a successor named by an edge and by a branch) — every reader derived from the
+    task's output stream is consumed by a branch condition, held by exactly one successor
+    channel slot, or closed: none is left over. -/
+theorem ledger_balanced (W B sel dups : Nat) (hd : dups ≤ sel + W) :
+    (distribute FactsC19.closesSurplus FactsC19.closesReplaced W B sel dups).leaked = 0 := by
   have h : FactsC19.closesSurplus = true := by decide
-  rw [h]
+  have h' : FactsC19.closesReplaced = true := by decide
+  rw [h, h']
   simp only [distribute, Ledger.leaked, copyCount]
   by_cases h0 : sel + W = 0
   · simp only [h0, ↓reduceIte]
@@ -33,11 +37,11 @@ theorem ledger_balanced (W B sel : Nat) :
     by_cases h1 : W + 2 * B < 2 <;> by_cases h2 : sel + W + 1 - (W + B) < 2 <;>
       simp only [h1, h2, ↓reduceIte] <;> omega
 
-/-- **copy_count_exact.** Readers are never shared: at least one distinct reader exists for
-    every branch condition and every successor (no two consumers get the same reader). -/
-theorem copy_count_exact (c : Bool) (W B sel : Nat) :
-    (distribute c W B sel).toBranches + (distribute c W B sel).toSuccessors
-      ≤ (distribute c W B sel).created := by
+/-- **copy_count_exact.** Readers are never shared: a distinct reader exists for every branch
+    condition and every successor entry (no two consumers get the same reader). -/
+theorem copy_count_exact (c c' : Bool) (W B sel dups : Nat) (hd : dups ≤ sel + W) :
+    (distribute c c' W B sel dups).toBranches + (distribute c c' W B sel dups).toSuccessors + dups
+      ≤ (distribute c c' W B sel dups).created + (if sel + W = 0 then dups else 0) := by
   simp only [distribute, copyCount]
   by_cases h0 : sel + W = 0
   · simp only [h0, ↓reduceIte]
@@ -46,24 +50,25 @@ theorem copy_count_exact (c : Bool) (W B sel : Nat) :
     by_cases h1 : W + 2 * B < 2 <;> by_cases h2 : sel + W + 1 - (W + B) < 2 <;>
       simp only [h1, h2, ↓reduceIte] <;> omega
 
-/-- Without closing the surplus, a task with some successor leaks exactly `B - sel` readers:
-    none when the branches select at least as many targets as there are branches (always the
-    case for single-target branches), one per branch that selected nothing otherwise.
-    (`hs`: targets can only be selected by branches.) -/
-theorem leak_without_close (W B sel : Nat) (h : 0 < sel + W) (hs : B = 0 → sel = 0) :
-    (distribute false W B sel).leaked = B - sel := by
+/-- Without closing anything, a task with some successor leaks one reader per branch that
+    selected nothing (beyond the other branches' extra selections) and one per repeated
+    target. (`hs`: targets can only be selected by branches.) -/
+theorem leak_without_close (W B sel dups : Nat) (h : 0 < sel + W) (hs : B = 0 → sel = 0) (hd : dups ≤ sel + W) :
+    (distribute false false W B sel dups).leaked = (B - sel) + dups := by
   have h0 : ¬ (sel + W = 0) := by omega
   simp only [distribute, Ledger.leaked, copyCount, h0, ↓reduceIte, Bool.false_eq_true]
   by_cases h1 : W + 2 * B < 2 <;> by_cases h2 : sel + W + 1 - (W + B) < 2 <;>
       simp only [h1, h2, ↓reduceIte] <;> omega
 
-/-- negation witness for code that does not close the surplus: one data successor, one
-    multi-branch that selects nothing ⇒ one reader is never closed (its producer stays
-    blocked once the other readers are closed). -/
-theorem surplus_leaks_without_close : (distribute false 1 1 0).leaked = 1 := by decide
+/-- negation witnesses for code that does not close: one data successor and one multi-branch
+    that selects nothing ⇒ one reader is never closed; an edge and a selecting branch to the
+    same node ⇒ the replaced copy is never closed. -/
+theorem surplus_leaks_without_close : (distribute false true 1 1 0 0).leaked = 1 := by decide
+theorem replaced_copy_leaks_without_close : (distribute true false 1 1 1 1).leaked = 1 := by decide
 
 /-! non-vacuity -/
-example : distribute true 2 1 3 = { created := 6, toBranches := 1, toSuccessors := 5, closed := 0 } := by decide
-example : (distribute true 1 1 0) = { created := 3, toBranches := 1, toSuccessors := 1, closed := 1 } := by decide
+example : distribute true true 2 1 3 0 = { created := 6, toBranches := 1, toSuccessors := 5, closed := 0 } := by decide
+example : (distribute true true 1 1 0 0) = { created := 3, toBranches := 1, toSuccessors := 1, closed := 1 } := by decide
+example : (distribute true true 1 1 1 1) = { created := 3, toBranches := 1, toSuccessors := 1, closed := 1 } := by decide
 
 end EinoV.C19
